@@ -480,7 +480,7 @@ func TestSignatureStrings(t *testing.T) {
 			if total > 75 {
 				total = 75
 			}
-			kind := rapid.SampledFrom([]string{"last-counts-lowered", "position-after-255", "swap", "duplicate", "padding", "padding-pair-sum-zero", "count+1", "count-1", "count-any", "random-position-byte", "z-byte", "count-chain"}).Draw(rt, "edit")
+			kind := rapid.SampledFrom([]string{"last-counts-lowered", "position-after-255", "swap", "duplicate", "padding", "padding-pair-sum-zero", "count+1", "count-1", "count-any", "random-position-byte", "z-byte", "count-chain", "empty-row-count-zeroed", "empty-row-count-zeroed"}).Draw(rt, "edit")
 			switch kind {
 			case "last-counts-lowered":
 				// rewrite the hint section: rows 0..r-1 keep a few hints, rows r..6 hold only position 0, row 7 is empty;
@@ -502,6 +502,28 @@ func TestSignatureStrings(t *testing.T) {
 					o[offCnt+row] = byte(k)
 				}
 				o[offCnt+7] = byte(k - rapid.IntRange(1, 7-r0).Draw(rt, "lower"))
+			case "empty-row-count-zeroed":
+				// rows with hints, one EMPTY row somewhere after the first non-empty one (its count repeats the previous
+				// count - that is canonical), then that count byte is set to 0 (or to any smaller value): no longer monotone
+				for i := offHint; i < offCnt+8; i++ {
+					o[i] = 0
+				}
+				empty := rapid.IntRange(1, 7).Draw(rt, "emptyRow")
+				k := 0
+				for row := 0; row < 8; row++ {
+					if row != empty {
+						for n := rapid.IntRange(1, 3).Draw(rt, "n"); n > 0 && k < 70; n-- {
+							o[offHint+k] = byte(40*(3-n) + row)
+							k++
+						}
+					}
+					o[offCnt+row] = byte(k)
+				}
+				if rapid.Bool().Draw(rt, "zero") {
+					o[offCnt+empty] = 0
+				} else {
+					o[offCnt+empty] = byte(rapid.IntRange(0, int(o[offCnt+empty])-1).Draw(rt, "smaller"))
+				}
 			case "position-after-255":
 				// a row that ends at position 255 followed by one more position byte (count bumped)
 				for i := offHint; i < offCnt+8; i++ {
